@@ -88,6 +88,12 @@ CLAIMS = {
             "unsigned option that can raise a newline count is compared with nl_max, and that comparison runs after the last option "
             "store and before any source is read. Holds for every configuration text; wording of diagnostics and include cycles are "
             "not decided.", "DESIGN.md section 4 C16"),
+    "C17": ("who-may-call for the character writers; must-pass-through of the trailing-blank strip in tokenize(); constant folding of the tab decisions of output_text/add_char under the abstract configuration indent_with_tabs=0 (with path-sensitive refinement of reaching definitions); guard analysis of the blank buffer; option-family partition of the end-of-file policy",
+            "Every chunk outside disabled regions loses its trailing blanks and tabs before it enters the chunk list, on every path; all "
+            "output characters pass add_char, which buffers blanks and flushes them only before a non-blank; under indent_with_tabs=0 "
+            "(pp_indent_with_tabs -1/0) every line-start column advance folds to allow_tabs=false and a tab after a blank is expanded - "
+            "for all inputs and all other option values; the end-of-file newline policy reads only its own option family. Trailing "
+            "blanks produced by column arithmetic inside comment continuation lines and alignment are not decided.", "DESIGN.md section 4 C17"),
     "C19": ("CFG dataflow (last-logged-rule x option provenance) over all do_space returns + who-may-call + switch-arm effect check",
             "Every return of do_space() (359) is checked: the option named by the last log_rule on each path is the option whose "
             "value (or a guard on it) decides the return; do_space is reachable only through ensure_force_space; the appliers' "
